@@ -383,24 +383,76 @@ theorem advanceToken_ok (f : Bool) (pos : Nat) (rest : List Char) :
     · have := utf8Len_takeWhile_le notWs rest
       simp only [LexOk]; omega
 
-theorem advanceReal_ok (f : Bool) (pos : Nat) (rest : List Char) :
-    LexOk (pos + utf8Len rest) rest.length (advanceReal (some f) pos rest) := by
-  have h := advanceToken_ok f pos rest
-  unfold advanceReal
-  split
-  · rename_i t pos' rest' heq
-    rw [heq] at h
+theorem advanceRealLoop_ok (f : Bool) : ∀ (fuel : List Char) (pos : Nat) (rest : List Char),
+    LexOk (pos + utf8Len rest) rest.length (advanceRealLoop (some f) fuel pos rest) := by
+  intro fuel
+  induction fuel with
+  | nil => intro pos rest; exact advanceToken_ok f pos rest
+  | cons _ fuel ih =>
+    intro pos rest
+    have h := advanceToken_ok f pos rest
+    unfold advanceRealLoop
     split
-    · rename_i hws
-      obtain ⟨_, h2, h3, _⟩ := h
-      have h3' : rest'.length < rest.length := by
-        rcases h3 with h3 | h3
-        · rw [hws] at h3; simp at h3
-        · exact h3
-      have := advanceToken_ok f pos' rest'
-      rw [h2] at this
-      exact this.mono (by omega)
-    · exact h
-  · rename_i r hne
-    exact h
+    · rename_i t pos' rest' heq
+      rw [heq] at h
+      split
+      · rename_i hws
+        obtain ⟨_, h2, h3, _⟩ := h
+        have h3' : rest'.length < rest.length := by
+          rcases h3 with h3 | h3
+          · rcases hws with hws | hws <;> (rw [hws] at h3; simp at h3)
+          · exact h3
+        have := ih pos' rest'
+        rw [h2] at this
+        exact this.mono (by omega)
+      · exact h
+    · rename_i r hne
+      exact h
+
+theorem advanceReal_ok (f : Bool) (pos : Nat) (rest : List Char) :
+    LexOk (pos + utf8Len rest) rest.length (advanceReal (some f) pos rest) :=
+  advanceRealLoop_ok f _ pos rest
+
+/-- what `advance_real` returns is a real token: with the unread text as fuel the loop never stops
+on white space or a comment. -/
+def RealTok : LexStep → Prop
+  | .tok t _ _ => t.kind ≠ .whitespace ∧ t.kind ≠ .comment
+  | _ => True
+
+theorem advanceRealLoop_real (f : Bool) : ∀ (fuel : List Char) (pos : Nat) (rest : List Char),
+    rest.length ≤ fuel.length → RealTok (advanceRealLoop (some f) fuel pos rest) := by
+  intro fuel
+  induction fuel with
+  | nil =>
+    intro pos rest h
+    have : rest = [] := List.eq_nil_of_length_eq_zero (by simpa using h)
+    subst this
+    simp [advanceRealLoop, advanceToken, RealTok]
+  | cons _ fuel ih =>
+    intro pos rest hlen
+    have h := advanceToken_ok f pos rest
+    unfold advanceRealLoop
+    split
+    · rename_i t pos' rest' heq
+      rw [heq] at h
+      split
+      · rename_i hws
+        obtain ⟨_, _, h3, _⟩ := h
+        have h3' : rest'.length < rest.length := by
+          rcases h3 with h3 | h3
+          · rcases hws with hws | hws <;> (rw [hws] at h3; simp at h3)
+          · exact h3
+        exact ih pos' rest' (by simp at hlen; omega)
+      · rename_i hn
+        exact ⟨fun h1 => hn (Or.inl h1), fun h2 => hn (Or.inr h2)⟩
+    · rename_i r hne
+      generalize advanceToken (some f) pos rest = q at hne
+      cases q with
+      | tok t p r' => exact (hne t p r' rfl).elim
+      | diag k o l => trivial
+      | panic s => trivial
+
+theorem advanceReal_real (f : Bool) (pos : Nat) (rest : List Char) :
+    RealTok (advanceReal (some f) pos rest) :=
+  advanceRealLoop_real f rest pos rest (Nat.le_refl _)
 end Lace.Asm
